@@ -5,7 +5,7 @@
    `rtu_frame_of`. A byte is an N below 256 (`bytes`). *)
 From Coq Require Import NArith List.
 From Rodbus Require Import Base.Outcome Base.Cursor Base.Frame Gen.RtuLengths Model.Buffer Model.Rtu Model.Crc Model.Reader Model.Format Spec.Framing
-  Gen.ParserShape Proofs.BufferProofs Proofs.ReaderGeneric Proofs.CrcProofs Proofs.MbapProofs Proofs.RtuProofs Proofs.C06Proofs Proofs.ShapeProofs.
+  Gen.ParserShape Gen.WritePath Model.WritePath Proofs.WritePathProofs Proofs.BufferProofs Proofs.ReaderGeneric Proofs.CrcProofs Proofs.MbapProofs Proofs.RtuProofs Proofs.C06Proofs Proofs.ShapeProofs.
 Import ListNotations.
 
 (* Every frame written by format_rtu_pdu (any destination, any function byte, any body serializer
@@ -181,6 +181,33 @@ Theorem C06_parser_shape : forall p st b, wf b -> bytes (b_pend b) -> rst_ok st 
      end in (st', b', lift_s r)).
 Proof. exact rtu_model_shape. Qed.
 Print Assumptions C06_parser_shape.
+
+(* THE TRANSMIT SIDE. Gen/WritePath.v lists, regenerated from common/phys.rs, the I/O call of EVERY transport arm of
+   PhysLayer::write (and read), and from server/task.rs the shape of write_reply. With the transport modelled as a
+   script of partial acceptances: on every arm, what has been handed to the transport is a prefix of the frame, and
+   when the write returns Ok it is the whole frame (all arms are write_all with the result returned; a single `write`
+   whose count is dropped loses bytes: C06_write_once_refuted). *)
+Theorem C06_phys_write_complete : forall v data ts out r, phys_write v data ts = (out, r) ->
+  exists rest, data = out ++ rest /\ (r = WDone -> out = data).
+Proof. exact phys_write_complete. Qed.
+Print Assumptions C06_phys_write_complete.
+Theorem C06_write_once_refuted : exists data ts out, write_once data ts = (out, WDone) /\ out <> data.
+Proof. exact write_once_loses_bytes. Qed.
+Print Assumptions C06_write_once_refuted.
+
+(* CANCEL-SAFETY OF THE REPLY WRITE (server/task.rs write_reply: the write raced against the command channel): for every
+   reply and every interleaving of transport progress and commands, what has been emitted is a prefix of the ONE
+   serialisation of the reply - the reply itself, exactly once, when the write completes - and it is the same as if no
+   decode-level change had arrived. False when the write is re-created after every command (C06_write_reply_recreated_refuted). *)
+Theorem C06_write_reply_cancel_safe : forall data evs out r, server_write_reply data evs = (out, r) ->
+  (exists rest, data = out ++ rest /\ (r = RDone -> out = data)) /\
+  server_write_reply data (filter is_take evs) = (out, r).
+Proof. exact server_write_reply_safe. Qed.
+Print Assumptions C06_write_reply_cancel_safe.
+Theorem C06_write_reply_recreated_refuted : exists data evs out,
+  write_reply WriteRecreatedAfterEveryCommand data data evs = (out, RDone) /\ out <> data.
+Proof. exact write_reply_recreated_refuted. Qed.
+Print Assumptions C06_write_reply_recreated_refuted.
 
 (* The RTU client (and any other user of one FramedReader across port reopenings that resets it
    at connection start, as ClientLoop::run does): every connection's stream is delimited and
